@@ -33,7 +33,7 @@ theorem temps_balanced (tokFix lineFix : Bool) : tempsLeft (passOps tokFix lineF
 theorem pass_ops (k : Nat) (rs : List XRule) (toks : String → List String) (doc : String) (tf : Option String) :
     (pass k rs toks doc tf).ops =
       passOps tf.isSome ((pass k rs toks doc tf).changed && !tf.isSome) none := by
-  simp only [pass, passOps]
+  simp only [passG, passOps]
   cases tf <;> simp
 
 /-- `fixed` (⇒ "Fixed: <file>" is printed, and the run can end FIXED) iff some pass changed the file. -/
@@ -55,7 +55,7 @@ document, by construction of the write-back condition). -/
 theorem pass_unchanged_content (k : Nat) (rs : List XRule) (toks : String → List String) (doc : String)
     (tf : Option String) (h : (pass k rs toks doc tf).changed = false) :
     (pass k rs toks doc tf).content = doc := by
-  simp only [pass] at h ⊢
+  simp only [passG] at h ⊢
   simp [h]
 
 /-- **Not announced ⇒ byte-identical**, for the concrete fix loop. -/
